@@ -344,7 +344,7 @@ impl DecoderFactory for SimFactory {
             }
             _ => None,
         };
-        Box::new(SimDecoder { sh: self.0.clone(), e, w, j: 0, inner, h })
+        Box::new(SimDecoder { sh: self.0.clone(), e, w, j: 0, first_scale: None, inner, h })
     }
 }
 
@@ -353,6 +353,8 @@ pub struct SimDecoder {
     e: usize,
     w: usize,
     j: u64,
+    /// LLR scale (~ 1/sigma^2) of the first frame this decoder saw
+    first_scale: Option<f64>,
     inner: Option<(DecoderImplementation, Box<dyn LdpcDecoder>)>,
     h: SparseMatrix,
 }
@@ -365,6 +367,37 @@ impl std::fmt::Debug for SimDecoder {
 
 fn hard(x: f64) -> u8 {
     u8::from(x <= 0.0)
+}
+
+/// A quantity proportional to 1/sigma^2 read off one frame: mean |LLR| at the transmitted
+/// positions (BPSK) or mean length of the scaled received sample (8PSK, by inverting the
+/// demodulator). The Eb/N0 points of a scripted run are far above the noise, so this
+/// identifies the point a frame was generated for without relying on which task decodes it.
+fn llr_scale(cfg: &BerCfg, llrs: &[f64]) -> Option<f64> {
+    cfg.tx_len()?;
+    if cfg.psk8 {
+        let tx = crate::c12::own_interleave(cfg, &crate::c12::own_puncture(cfg, llrs));
+        if tx.len() < 3 || tx.len() % 3 != 0 {
+            return None;
+        }
+        let mut sum = 0.0;
+        let mut n = 0.0;
+        for t in tx.chunks(3) {
+            let (u, v, _) = crate::c12::psk8_invert([t[0], t[1], t[2]]);
+            sum += (u * u + v * v).sqrt();
+            n += 1.0;
+        }
+        let m = sum / n;
+        if m.is_finite() && m > 0.0 { Some(m) } else { None }
+    } else {
+        let kept = cfg.kept_mask();
+        let v: Vec<f64> = llrs.iter().zip(kept).filter(|(_, k)| *k).map(|(x, _)| x.abs()).collect();
+        if v.is_empty() {
+            return None;
+        }
+        let m = v.iter().sum::<f64>() / v.len() as f64;
+        if m.is_finite() && m > 0.0 { Some(m) } else { None }
+    }
 }
 
 /// LLR vectors observed by the genie decoder (kept out of the event log because of their
@@ -385,6 +418,40 @@ impl LdpcDecoder for SimDecoder {
             dstsim::emit("wrong-llr-length", vec![e as i64, w as i64, j as i64, llrs.len() as i64]);
             return Err(DecoderOutput { codeword: vec![0; n], iterations: max_iterations });
         }
+        // which Eb/N0 point was this frame generated for? (the decoder's build point, unless the
+        // LLR scale says otherwise: a persistent worker carried over to the next point, a stale
+        // frame of the previous point, a demodulator built for another point). Only for the
+        // scripted and genie decoders, whose Eb/N0 values are far above the noise and far apart.
+        let e = if matches!(cfg.factory, FactoryKind::Script | FactoryKind::Genie) {
+            let e_build = e;
+            let e_tag = match (llr_scale(cfg, llrs), self.first_scale) {
+                (Some(m), None) => {
+                    self.first_scale = Some(m);
+                    e_build
+                }
+                (Some(m), Some(first)) => {
+                    let l = (m / first).ln();
+                    let base = f64::from(cfg.ebn0s_db[e_build.min(cfg.ebn0s_db.len() - 1)]);
+                    let mut best = e_build;
+                    let mut best_d = f64::INFINITY;
+                    for (i, &x) in cfg.ebn0s_db.iter().enumerate() {
+                        let d = (l - 0.1 * std::f64::consts::LN_10 * (f64::from(x) - base)).abs();
+                        if d < best_d {
+                            best_d = d;
+                            best = i;
+                        }
+                    }
+                    best
+                }
+                _ => e_build,
+            };
+            if e_tag != e_build {
+                dstsim::emit("frame-of-other-point", vec![e_build as i64, w as i64, j as i64, e_tag as i64]);
+            }
+            e_tag
+        } else {
+            e
+        };
         match &cfg.factory {
             FactoryKind::Script => {
                 let sf = script_frame(cfg, e, w, j);
@@ -567,33 +634,42 @@ pub fn run_one(cfg: &BerCfg) -> BerObs {
 // ---------------------------------------------------------------------------
 
 /// What the event log says about one Eb/N0 point.
+///
+/// `recvs`/`frames` are organised by the point a frame was *generated for* (the tag the
+/// scripted decoder reads off the LLR scale; for the other factories the decoder's build
+/// point), not by which task or channel carried it; `worker_tasks`, `joins` and
+/// `terminate_sent` are organised by the point a worker was *built in*.
 #[derive(Clone, Debug, Default)]
 pub struct PointHistory {
-    pub results_chan: usize,
-    pub terminate_chans: Vec<usize>,
     pub worker_tasks: Vec<usize>,
-    /// all sends on the results channel in global order: (worker index, per-sender seq)
-    pub sends: Vec<(usize, u64)>,
-    /// what the collector received, in order
+    /// results the collector received for this point, in reception order: (sender task, index
+    /// of that message among the sender's results)
     pub recvs: Vec<(usize, u64)>,
-    /// frames by (worker, j): (bit_errors, success, iterations)
+    /// frames by (task, index): (bit_errors, success, iterations)
     pub frames: std::collections::BTreeMap<(usize, u64), (u64, bool, u64)>,
+    /// results the collector received from workers built in this point that carry no decoded
+    /// frame (the Err(()) a worker forwards when a stage fails)
+    pub err_msgs: u64,
     pub terminate_sent: usize,
     pub joins: Vec<(usize, bool)>,
     pub chain_fail: u64,
+    /// results sent by workers for this point but never received
+    pub unconsumed: u64,
 }
 
 pub struct History {
-    pub report_chan: Option<usize>,
     pub points: Vec<PointHistory>,
     pub anomalies: Vec<String>,
+    /// FIFO / no-loss / no-duplication violation on a results channel, if any
+    pub transport: Option<String>,
+    /// a result was received after a worker's error message on the same channel
+    pub recv_after_err: bool,
     /// order of transport events: hash input for the interleaving measure
     pub transport_sig: u64,
 }
 
 pub fn extract_history(cfg: &BerCfg, events: &[Event], report_chan: Option<usize>) -> History {
     use std::collections::BTreeMap;
-    let _ = cfg;
     let mut anomalies = Vec::new();
     // pass 1: which task is worker (e, w): the decoder for (e, w) is built by the root right
     // before that worker is spawned
@@ -612,14 +688,14 @@ pub fn extract_history(cfg: &BerCfg, events: &[Event], report_chan: Option<usize
     }
     // pass 2: channel roles by traffic (not by channel kind or creation order): a worker's
     // results channel is where it sends, its terminate channel is where it polls
-    let mut results_of: BTreeMap<usize, usize> = BTreeMap::new(); // chan -> point
+    let mut results_chans: BTreeMap<usize, ()> = BTreeMap::new();
     let mut terminate_of: BTreeMap<usize, (usize, usize)> = BTreeMap::new(); // chan -> (e, w)
     for ev in events {
         let Some(&(e, w)) = task_role.get(&ev.task) else { continue };
         match &ev.ev {
             Ev::Send { chan, .. } | Ev::SendFail { chan } => {
                 if Some(*chan) != report_chan {
-                    results_of.entry(*chan).or_insert(e);
+                    results_chans.insert(*chan, ());
                 }
             }
             Ev::TryRecvOk { chan, .. } | Ev::TryRecvEmpty { chan } | Ev::TryRecvDisc { chan } | Ev::Recv { chan, .. } | Ev::RecvDisc { chan } => {
@@ -628,7 +704,7 @@ pub fn extract_history(cfg: &BerCfg, events: &[Event], report_chan: Option<usize
             _ => {}
         }
     }
-    let npoints = task_role.values().map(|r| r.0 + 1).max().unwrap_or(0);
+    let npoints = cfg.ebn0s_db.len().max(task_role.values().map(|r| r.0 + 1).max().unwrap_or(0));
     let mut points: Vec<PointHistory> = (0..npoints).map(|_| PointHistory::default()).collect();
     for (t, (e, w)) in &task_role {
         let p = &mut points[*e];
@@ -637,12 +713,17 @@ pub fn extract_history(cfg: &BerCfg, events: &[Event], report_chan: Option<usize
         }
         p.worker_tasks[*w] = *t;
     }
-    for (c, e) in &results_of {
-        points[*e].results_chan = *c;
-    }
-    for (c, (e, _)) in &terminate_of {
-        points[*e].terminate_chans.push(*c);
-    }
+    // pass 3: frames (k-th frame decoded by a task), sends (k-th result sent by a task),
+    // receptions by the collector
+    let mut frame_count: BTreeMap<usize, u64> = BTreeMap::new();
+    let mut frame_of: BTreeMap<(usize, u64), (usize, (u64, bool, u64))> = BTreeMap::new(); // (task,k) -> (tag, content)
+    let mut send_count: BTreeMap<usize, u64> = BTreeMap::new();
+    let mut send_index: BTreeMap<(usize, usize, u64), u64> = BTreeMap::new(); // (chan, task, seq) -> k
+    let mut sent_on: BTreeMap<usize, Vec<(usize, u64)>> = BTreeMap::new(); // chan -> (task, seq) in order
+    let mut recv_on: BTreeMap<usize, Vec<(usize, u64)>> = BTreeMap::new();
+    let mut err_seen_on: BTreeMap<usize, bool> = BTreeMap::new();
+    let mut recv_after_err = false;
+    let mut received: std::collections::BTreeSet<(usize, u64)> = Default::default();
     let mut sig: u64 = 0xcbf29ce484222325;
     let mut mixin = |a: u64, b: u64| {
         for x in [a, b] {
@@ -653,8 +734,11 @@ pub fn extract_history(cfg: &BerCfg, events: &[Event], report_chan: Option<usize
     for ev in events {
         match &ev.ev {
             Ev::Send { chan, seq } => {
-                if let (Some(&e), Some(&(_, w))) = (results_of.get(chan), task_role.get(&ev.task)) {
-                    points[e].sends.push((w, *seq));
+                if let (true, Some(&(_, w))) = (results_chans.contains_key(chan), task_role.get(&ev.task)) {
+                    let k = send_count.entry(ev.task).or_insert(0);
+                    send_index.insert((*chan, ev.task, *seq), *k);
+                    *k += 1;
+                    sent_on.entry(*chan).or_default().push((ev.task, *seq));
                     mixin(1, w as u64);
                 } else if ev.task == 0 {
                     if let Some(&(e, _)) = terminate_of.get(chan) {
@@ -673,10 +757,25 @@ pub fn extract_history(cfg: &BerCfg, events: &[Event], report_chan: Option<usize
                 }
             }
             // the collector may take results by recv() or by polling: both are receptions
-            Ev::Recv { chan, from, seq } | Ev::TryRecvOk { chan, from, seq } if ev.task == 0 && results_of.contains_key(chan) => {
-                if let (Some(&e), Some(&(_, w))) = (results_of.get(chan), task_role.get(from)) {
-                    points[e].recvs.push((w, *seq));
+            Ev::Recv { chan, from, seq } | Ev::TryRecvOk { chan, from, seq } if ev.task == 0 && results_chans.contains_key(chan) => {
+                recv_on.entry(*chan).or_default().push((*from, *seq));
+                if *err_seen_on.get(chan).unwrap_or(&false) {
+                    recv_after_err = true;
+                }
+                if let (Some(&(e_build, w)), Some(&k)) = (task_role.get(from), send_index.get(&(*chan, *from, *seq))) {
                     mixin(4, w as u64);
+                    match frame_of.get(&(*from, k)) {
+                        Some(&(tag, content)) => {
+                            let p = &mut points[tag.min(npoints - 1)];
+                            p.recvs.push((*from, k));
+                            p.frames.insert((*from, k), content);
+                            received.insert((*from, k));
+                        }
+                        None => {
+                            points[e_build].err_msgs += 1;
+                            err_seen_on.insert(*chan, true);
+                        }
+                    }
                 }
             }
             Ev::TryRecvOk { chan, .. } => {
@@ -697,15 +796,15 @@ pub fn extract_history(cfg: &BerCfg, events: &[Event], report_chan: Option<usize
             }
             Ev::User { tag, vals } => match *tag {
                 "frame" | "genie-frame" | "diff-frame" => {
-                    let (e, wi, j) = (vals[0] as usize, vals[1] as usize, vals[2] as u64);
-                    if let Some(p) = points.get_mut(e) {
-                        let fr = match *tag {
-                            "frame" => (vals[3] as u64, vals[4] == 1, vals[5] as u64),
-                            "genie-frame" => (vals[3] as u64, vals[3] == 0, 1),
-                            _ => (0, vals[4] == 1, vals[5] as u64),
-                        };
-                        p.frames.insert((wi, j), fr);
-                    }
+                    let e = vals[0] as usize;
+                    let fr = match *tag {
+                        "frame" => (vals[3] as u64, vals[4] == 1, vals[5] as u64),
+                        "genie-frame" => (vals[3] as u64, vals[3] == 0, 1),
+                        _ => (0, vals[4] == 1, vals[5] as u64),
+                    };
+                    let k = frame_count.entry(ev.task).or_insert(0);
+                    frame_of.insert((ev.task, *k), (e, fr));
+                    *k += 1;
                 }
                 "chain-fail" => {
                     if let Some(p) = points.get_mut(vals[0] as usize) {
@@ -720,7 +819,27 @@ pub fn extract_history(cfg: &BerCfg, events: &[Event], report_chan: Option<usize
             _ => {}
         }
     }
-    History { report_chan, points, anomalies, transport_sig: sig }
+    // transport: on every results channel the receptions are a prefix of the sends
+    let mut transport = None;
+    for (c, r) in &recv_on {
+        let sent = sent_on.get(c).cloned().unwrap_or_default();
+        if r.len() > sent.len() || r[..] != sent[..r.len()] {
+            transport = Some(format!("results channel #{}: received sequence {:?} is not a prefix of the sent sequence {:?}", c, r, sent));
+        }
+    }
+    // sent but never received, per point of the frame
+    for (c, sent) in &sent_on {
+        for (t, seq) in sent {
+            if let Some(&k) = send_index.get(&(*c, *t, *seq)) {
+                if !received.contains(&(*t, k)) {
+                    if let Some(&(tag, _)) = frame_of.get(&(*t, k)) {
+                        points[tag.min(npoints - 1)].unconsumed += 1;
+                    }
+                }
+            }
+        }
+    }
+    History { points, anomalies, transport, recv_after_err, transport_sig: sig }
 }
 
 // ---------------------------------------------------------------------------
@@ -990,55 +1109,36 @@ pub fn oracle_c13(cfg: &BerCfg, obs: &BerObs) -> (Vec<Violation>, OracleStats) {
         if sv.len() != cfg.ebn0s_db.len() {
             v.push(Violation::new("counters", format!("{} statistics for {} Eb/N0 points", sv.len(), cfg.ebn0s_db.len())));
         }
-        if hist.points.len() != cfg.ebn0s_db.len() {
-            v.push(Violation::new("structure", format!("{} points simulated for {} Eb/N0 values", hist.points.len(), cfg.ebn0s_db.len())));
-        }
+    }
+    // 1. transport: on every results channel what the collector received is a prefix of what
+    // was sent (FIFO, no loss, no duplication)
+    if let Some(m) = &hist.transport {
+        v.push(Violation::new("transport", m.clone()));
+        return (v, st);
+    }
+    if hist.recv_after_err && cfg.stage_error() {
+        v.push(Violation::new("stop-rule", "the collector kept receiving after a worker reported an error".to_string()));
     }
     let mut folds: Vec<Vec<RefCounters>> = Vec::new(); // per point: prefix folds (index = frames)
     for (e, p) in hist.points.iter().enumerate() {
-        // 1. transport: what the collector received is a prefix of what was sent
-        if p.recvs.len() > p.sends.len() || p.recvs[..] != p.sends[..p.recvs.len()] {
-            v.push(Violation::new(
-                "transport",
-                format!("point {}: received sequence {:?} is not a prefix of the sent sequence {:?}", e, p.recvs, p.sends),
-            ));
-            continue;
-        }
-        // fold
+        // the frames generated for this point, in the order the collector received them; the
+        // collector must count them one by one until the error target is met, and no further
         let mut rc = RefCounters::default();
         let mut prefix = vec![rc.clone()];
-        let mut stop_at: Option<usize> = None; // number of messages after which the target is met
-        let mut err_msg_seen = false;
-        for (i, &(wi, seq)) in p.recvs.iter().enumerate() {
-            if rc.errors_for_termination(t) >= f && stop_at.is_none() {
-                stop_at = Some(i);
+        let mut all = RefCounters::default();
+        let mut all_prefix = vec![all.clone()];
+        for key in &p.recvs {
+            let &(be, succ, it) = p.frames.get(key).expect("received frame without content");
+            if rc.errors_for_termination(t) < f {
+                rc.add(be, succ, it, t);
+                prefix.push(rc.clone());
             }
-            match p.frames.get(&(wi, seq)) {
-                Some(&(be, succ, it)) => {
-                    rc.add(be, succ, it, t);
-                    prefix.push(rc.clone());
-                }
-                None => {
-                    // a message without a decoded frame: the stage-error Err(())
-                    if cfg.stage_error() {
-                        err_msg_seen = true;
-                        if i + 1 != p.recvs.len() {
-                            v.push(Violation::new("stop-rule", format!("point {}: collector kept receiving after a worker reported an error", e)));
-                        }
-                    } else {
-                        v.push(Violation::new("structure", format!("point {}: message ({},{}) has no decoded frame", e, wi, seq)));
-                    }
-                }
-            }
+            all.add(be, succ, it, t);
+            all_prefix.push(all.clone());
         }
+        let err_msg_seen = p.err_msgs > 0;
         st.frames_total += rc.num_frames;
         // 2. stopping rule
-        if let Some(i) = stop_at {
-            v.push(Violation::new(
-                "stop-rule",
-                format!("point {}: error target {} was met after {} messages but {} were consumed", e, f, i, p.recvs.len()),
-            ));
-        }
         let finished_normally = rc.errors_for_termination(t) >= f;
         if !finished_normally && !err_msg_seen {
             // the point ended before the target: only legitimate under a fault
@@ -1049,10 +1149,7 @@ pub fn oracle_c13(cfg: &BerCfg, obs: &BerObs) -> (Vec<Violation>, OracleStats) {
                 ));
             }
         }
-        if f == 0 && !p.recvs.is_empty() {
-            v.push(Violation::new("stop-rule", format!("point {}: error target 0 but {} results consumed", e, p.recvs.len())));
-        }
-        if p.recvs.len() < p.sends.len() {
+        if p.unconsumed > 0 || p.recvs.len() as u64 > rc.num_frames {
             st.probes.inc("results left unconsumed at stop");
         }
         if rc.bit_errors > 0 && t > 0 && prefix.iter().any(|c| c.frame_errors > c.bch_frame_errors) {
@@ -1064,7 +1161,19 @@ pub fn oracle_c13(cfg: &BerCfg, obs: &BerObs) -> (Vec<Violation>, OracleStats) {
                 if s.ebn0_db != cfg.ebn0s_db[e] {
                     v.push(Violation::new("counters", format!("point {}: ebn0_db {} != {}", e, s.ebn0_db, cfg.ebn0s_db[e])));
                 }
-                compare_stats(s, &rc, k, t, &format!("point {} returned statistics", e), &mut v);
+                // counted beyond the target? (then the statistics are those of a longer prefix)
+                let overshoot = s.num_frames > rc.num_frames
+                    && all_prefix.get(s.num_frames as usize).is_some_and(|c| {
+                        c.bit_errors == s.ldpc.bit_errors && c.frame_errors == s.ldpc.frame_errors && c.total_iterations == s.total_iterations
+                    });
+                if overshoot {
+                    v.push(Violation::new(
+                        "stop-rule",
+                        format!("point {}: error target {} was met after {} frames but {} were counted", e, f, rc.num_frames, s.num_frames),
+                    ));
+                } else {
+                    compare_stats(s, &rc, k, t, &format!("point {} returned statistics", e), &mut v);
+                }
                 let max_el = (out.clock_ns.saturating_sub(1_000_000_000)) as f64 * 1e-9;
                 if s.elapsed.as_secs_f64() > max_el + 1e-9 {
                     v.push(Violation::new("ratios", format!("point {}: elapsed {:?} exceeds the simulated run time {} s", e, s.elapsed, max_el)));
@@ -1074,7 +1183,7 @@ pub fn oracle_c13(cfg: &BerCfg, obs: &BerObs) -> (Vec<Violation>, OracleStats) {
                 }
             }
         }
-        // 6. terminate + joins
+        // 6. terminate + joins (workers built in this point)
         let nworkers = p.worker_tasks.len();
         if result.is_ok() && p.joins.len() != nworkers {
             v.push(Violation::new("joins", format!("point {}: {} of {} workers joined", e, p.joins.len(), nworkers)));
@@ -1112,6 +1221,14 @@ pub fn oracle_c13(cfg: &BerCfg, obs: &BerObs) -> (Vec<Violation>, OracleStats) {
         for (e, list) in per_point.iter().enumerate() {
             let Some(prefix) = folds.get(e) else { continue };
             let mut last_n = 0u64;
+            // a point that never started (the run ended with an error at an earlier point)
+            // owes no report
+            let p = &hist.points[e];
+            let started = !p.worker_tasks.is_empty() || !p.recvs.is_empty() || stats_vec.is_some_and(|sv| e < sv.len()) || e == 0;
+            let earlier_all_started = (0..e).all(|i| !hist.points[i].worker_tasks.is_empty() || !hist.points[i].recvs.is_empty());
+            if list.is_empty() && !(started || (result.is_ok() && earlier_all_started)) {
+                continue;
+            }
             if list.is_empty() {
                 v.push(Violation::new("reports", format!("point {}: no statistics report (a final one is required)", e)));
                 continue;
